@@ -146,11 +146,13 @@ pub struct Form {
     pub ref_umv: bool,
     pub p_plus: PlusForm,
     pub qsel: u64,
+    /// macroblock `i` is preceded by one or two MCBPC stuffing codewords when bit `i % 64` is set
+    pub stuff: u64,
 }
 
 impl Default for Form {
     fn default() -> Form {
-        Form { ref_plus: PlusForm::Baseline, ref_umv: false, p_plus: PlusForm::Baseline, qsel: 0 }
+        Form { ref_plus: PlusForm::Baseline, ref_umv: false, p_plus: PlusForm::Baseline, qsel: 0, stuff: 0 }
     }
 }
 
@@ -174,7 +176,12 @@ fn run_field_form(mode: Mode, version: u8, size: Size, specs: &[Spec], form: &Fo
         // a header that restates nothing would inherit the reference's UMV mode
         hdr.plus = if form.p_plus == PlusForm::Brief && refpic.hdr.umv_coded() { PlusForm::Full } else { form.p_plus };
     }
-    let pic = build_p_q(&hdr, specs, form.qsel);
+    let mut pic = build_p_q(&hdr, specs, form.qsel);
+    for (i, mb) in pic.mbs.iter_mut().enumerate() {
+        if (form.stuff >> (i % 64)) & 1 == 1 {
+            mb.stuffing = 1 + (i % 2) as u8;
+        }
+    }
     let (model, _, _) = check_inter(&mut st, &pic, &reference)?;
     Ok(model.stats)
 }
@@ -205,9 +212,9 @@ fn pred_diff_item(i: u64, acc: &mut Acc) {
             // header forms and the UMV bit of the reference's header vary with the differential
             let (size, mbw, form) = if mode == Mode::Standard {
                 let f = FORMS[(d + p).rem_euclid(5) as usize];
-                (Size::Sqcif, 8usize, Form { ref_plus: f.0, ref_umv: f.1, p_plus: f.2, qsel: if d & 4 != 0 { 1 << (mbw_target(8) % 64) } else { 0 } })
+                (Size::Sqcif, 8usize, Form { ref_plus: f.0, ref_umv: f.1, p_plus: f.2, qsel: if d & 4 != 0 { 1 << (mbw_target(8) % 64) } else { 0 }, stuff: if d & 2 != 0 { 1 << 8 | 1 << 9 } else { 0 } })
             } else {
-                (SIZE_4X3, 4usize, Form { qsel: if d & 1 != 0 { 1 << 5 } else { 0 }, ..Form::default() })
+                (SIZE_4X3, 4usize, Form { qsel: if d & 1 != 0 { 1 << 5 } else { 0 }, stuff: if d & 2 != 0 { 1 << 4 | 1 << 5 } else { 0 }, ..Form::default() })
             };
             let mut specs = vec![Spec::NotCoded; if mode == Mode::Standard { 48 } else { 12 }];
             specs[1] = Spec::Want1(pv); // above (1,0)
@@ -319,7 +326,7 @@ fn neighbour_item(i: u64, acc: &mut Acc) {
     };
     for perm in NB_VECTORS.iter() {
         for four_nb in [false, true] {
-            for target in 0..3 {
+            for target in 0..4 {
                 let mut specs = vec![Spec::NotCoded; mbw * mbh];
                 // fill everything before the target with varied inter macroblocks so that stale or
                 // misplaced candidates are never accidentally right
@@ -338,11 +345,19 @@ fn neighbour_item(i: u64, acc: &mut Acc) {
                 specs[pos] = match target {
                     0 => Spec::Diff1((3, -5)),
                     1 => Spec::Diff4([(1, 2), (-3, 4), (5, -6), (-7, -8)]),
-                    _ => Spec::Diff4([(0, 0), (0, 0), (0, 0), (0, 0)]),
+                    2 => Spec::Diff4([(0, 0), (0, 0), (0, 0), (0, 0)]),
+                    // four vectors of which the first is exactly zero
+                    _ => Spec::Want4([(0, 0), (9, -4), (-6, 7), (3, 11)]),
                 };
                 // +Q macroblock types: a position-dependent selection that changes with the permutation
                 let qsel = (0x9E37_79B9_7F4A_7C15u64.rotate_left((perm[0].0 + 32) as u32)) & if target == 2 { 0 } else { !0 };
-                match run_field_form(Mode::Sorenson, 1, size, &specs, &Form { qsel, ..Form::default() }) {
+                // MCBPC stuffing before the first macroblock of every row, before the target, or nowhere
+                let stuff: u64 = match (perm[0].0 + perm[1].1).rem_euclid(3) {
+                    0 => 0,
+                    1 => (0..mbh).fold(0u64, |a, r| a | 1 << ((r * mbw) % 64)),
+                    _ => 1 << (pos % 64),
+                };
+                match run_field_form(Mode::Sorenson, 1, size, &specs, &Form { qsel, stuff, ..Form::default() }) {
                     Err(m) => {
                         acc.fail(
                             json!({"kind":"params","suite":"neighbours","item":i}),
@@ -352,7 +367,7 @@ fn neighbour_item(i: u64, acc: &mut Acc) {
                                 [kinds % 3, (kinds / 3) % 3, kinds / 9].map(|k| ["inter", "intra", "not coded"][k]),
                                 perm,
                                 if four_nb { "four-vector" } else { "one-vector" },
-                                ["one vector", "four vectors", "four zero differentials"][target],
+                                ["one vector", "four vectors", "four zero differentials", "four vectors, the first zero"][target],
                                 m
                             ),
                         );
@@ -372,7 +387,7 @@ fn neighbour_item(i: u64, acc: &mut Acc) {
         _ if mx + 1 == mbw => "other row, last column",
         _ => "other row, interior",
     };
-    acc.label_n(cfg_label, 36);
+    acc.label_n(cfg_label, 48);
     if i == 27 * 5 * 5 + 4 {
         acc.sample(|| json!({"size": format!("{:?}", size), "target": [mx, my], "neighbour_kinds": kinds, "vector_permutations": 6, "targets": ["1MV", "4MV", "4MV zero diff"]}));
     }
@@ -403,6 +418,7 @@ fn random_field_case(g: &mut Gen) -> Verdict {
         ref_umv: g.chance(1, 3),
         p_plus: *g.pick(&[PlusForm::Baseline, PlusForm::Baseline, PlusForm::Full, PlusForm::Brief]),
         qsel: if g.chance(1, 2) { 0 } else { (g.word() as u64) << 32 | g.word() as u64 },
+        stuff: if g.chance(1, 2) { 0 } else { (g.word() as u64) << 32 | g.word() as u64 & g.word() as u64 },
     };
     g.describe(|| json!({"mode": format!("{:?} v{}", mode, version), "size": format!("{:?}", size), "form": format!("{:?}", form), "specs": format!("{:?}", &specs[..specs.len().min(12)])}));
     match run_field_form(mode, version, size, &specs, &form) {
@@ -413,6 +429,9 @@ fn random_field_case(g: &mut Gen) -> Verdict {
             let mut l: Labels = vec![if s.four_v > 0 { "has four-vector macroblocks" } else { "one-vector only" }];
             if form.qsel != 0 {
                 l.push("macroblock types with quantizer update");
+            }
+            if form.stuff != 0 {
+                l.push("MCBPC stuffing between macroblocks");
             }
             if mode == Mode::Standard {
                 l.push(match form.p_plus {
